@@ -21,12 +21,13 @@ Record tx := mkTx { thash : Z; tfrom : Z; tnonce : Z; tprice : Z; tgas : Z;
 Definition tcost (t : tx) : Z := tvalue t + tprice t * tgas t.
 
 (* ---------------------------------------------------------------- oracle *)
-(* operm1: range order over pool.pending / pool.queue / dirty account maps;
+(* operm1: range order over pool.queue / the dirty account map / pool.pending (spammers) in promoteExecutables;
+   operm4: range order over pool.pending in demoteUnexecutables (an independent Go map range);
    operm2: prque pops among equal priorities (spammers);
    operm3: range order feeding the (stable for n<=12) heartbeat sort;
    orank : order in which txSortedMap.Filter's range over items reports the
            removed transactions, and priceHeap pops among equal prices. *)
-Record oracle := mkOracle { operm1 : list Z; operm2 : list Z; operm3 : list Z; orank : list (Z * Z) }.
+Record oracle := mkOracle { operm1 : list Z; operm2 : list Z; operm3 : list Z; operm4 : list Z; orank : list (Z * Z) }.
 
 Fixpoint assoc {A} (k : Z) (l : list (Z * A)) : option A :=
   match l with [] => None | (k', v) :: r => if k =? k' then Some v else assoc k r end.
@@ -552,7 +553,7 @@ Definition demote_account (o : oracle) (p : pool) (a : Z) : res pool :=
     Ok (if tl_empty l4 then set_beats (set_pending p4 (assoc_del a (pending p4))) (assoc_del a (beats p4)) (clock p4) else p4)
   end.
 Definition demote_unexecutables (o : oracle) (p : pool) : res pool :=
-  fold_res (demote_account o) (order_keys (operm1 o) (map fst (pending p))) p.
+  fold_res (demote_account o) (order_keys (operm4 o) (map fst (pending p))) p.
 
 (* TxPool.reset after the block walk: newcur/newgas = state and gas limit of the new head,
    reinject = TxDifference(discarded, included) *)
